@@ -932,6 +932,18 @@ class C06:
             add("decode-junk", "DECODE %d %s %s" % (tree, gen.hdrs_field([(b"Content-Encoding", b", ".join(toks))]), hx(body)))
             ctv = rng.pick([b"text/plain", b"text/plain; charset=utf-8", b"text/x;charset=", b"/", b";", b"text/;=;charset", b"TEXT/a; x=y; CHARSET=Shift_JIS", b"text/a;charset=utf-16le", b"text/a;charset=iso-2022-jp", b"text/a; charset=gb18030", b"text/a; charset=big5", b"text/a; charset=euc-kr", b"text/a; charset=x-user-defined", b"text/a; charset=replacement"])
             add("text-junk", "TEXT %s %s" % (gen.hdrs_field([(b"Content-Type", ctv)]), hx(gen.rand_bytes(rng, rng.below(12)))))
+        # text decoding: the structured Content-Type grammar and every short string over its structural alphabet
+        from . import props_coding
+        for _ in range(n):
+            hs, body = props_coding.gen_text_case(rng)
+            add("text-grammar", "TEXT %s %s" % (gen.hdrs_field(hs), hx(body)))
+            hs, body, _ = props_coding.gen_decode_case(rng, corrupt_p=0.3)
+            if len(body) < 3000:
+                add("decode-grammar", "DECODE %d %s %s" % (tree, gen.hdrs_field(hs), hx(gen.mutate(rng, body) if rng.chance(1, 2) else body)))
+        for w in small_strings([b'"', b"=", b";", b"a", b" ", b"/", b"\xc3\xa9", b"'"], n_for(tier, 3, 4)):
+            add("text-structural", "TEXT %s %s" % (gen.hdrs_field([(b"Content-Type", b"text/plain; charset=" + w)]), hx(b"a\xc3\xa9")))
+            add("text-structural", "TEXT %s %s" % (gen.hdrs_field([(b"Content-Type", b"text" + w)]), hx(b"a")))
+            add("text-structural", "TEXT %s %s" % (gen.hdrs_field([(b"Content-Type", b"text/x;" + w + b"charset=utf-8")]), hx(b"a")))
         return groups
 
     @staticmethod
